@@ -12,7 +12,7 @@ VERIF = Path(__file__).resolve().parent.parent
 
 def seeded() -> None:
     metas = [json.loads(p.read_text()) for p in sorted((VERIF / "seeded").glob("*/meta.json"))]
-    for rnd in (1, 2, 3):
+    for rnd in (1, 2, 3, 4):
         rows = [m for m in metas if m.get("round", 1) == rnd]
         if not rows:
             continue
